@@ -8,4 +8,8 @@ set -e
 "$V/build.sh" "$V/.build/sim.test"
 mkdir -p "$V/.build"
 (cd "$V/driver" && CGO_ENABLED=0 $GO build -o "$V/.build/vdrv" .)
+# keys for C20's 272-node tables (17 buckets x 16, one fixed victim): searched once, about 3 million trials
+if [ ! -s "$V/.build/c20keys.json" ]; then
+  (cd "$V/sim" && $GO build -o "$V/.build/c20keys" ./cmd/c20keys && "$V/.build/c20keys" "$V/.build/c20keys.json.tmp" && mv "$V/.build/c20keys.json.tmp" "$V/.build/c20keys.json")
+fi
 echo "prebuild: ok"
